@@ -26,7 +26,7 @@
 (***************************************************************************)
 EXTENDS Integers, FiniteSets, TLC
 
-CONSTANTS Inst, Sh, MaxClaims, MaxDup, MaxSnap, AllowLeave, AllowRelease, TsFix, Late, NeedKnown
+CONSTANTS Inst, Sh, MaxClaims, MaxDup, MaxSnap, AllowLeave, AllowRelease, TsFix, Late, NeedKnown, SplitDeliver, GuardedEvict
 None == [sh \in Sh |-> -1]      \* "no entry" (a function, so that it compares with snapshots)
 NoShards == [sh \in Sh |-> 0]
 
@@ -40,13 +40,15 @@ VARIABLES clock,
   lastClaim,  \* history: [Inst -> [Sh -> ts of the instance's latest claim (kept after release; 0 after leave)]]
   held,       \* history: [Inst -> [Sh -> the instance has not released that claim itself]]
   nclaims, dups, nsnaps,
-  joined      \* instances that are members of the memberlist cluster (Inst \ Late at the start)
-vars == <<clock, local, pend, msgs, remote, snaps, left, leaveEv, lastClaim, held, nclaims, dups, nsnaps, joined>>
+  joined,     \* instances that are members of the memberlist cluster (Inst \ Late at the start)
+  rd          \* SplitDeliver: register announcements whose handler has READ the local entry (snapshot) but not yet acted on it
+              \* (shardDelegate.NotifyMsg between reading localShards and UnregisterShard(shard, snapshot.Created))
+vars == <<clock, local, pend, msgs, remote, snaps, left, leaveEv, lastClaim, held, nclaims, dups, nsnaps, joined, rd>>
 
 Init == /\ clock = 0 /\ local = [i \in Inst |-> NoShards] /\ pend = [i \in Inst |-> {}] /\ msgs = {}
         \* everybody has merged everybody's (empty) state: "instances that know each other"
         /\ remote = [j \in Inst |-> [i \in Inst |-> IF i = j \/ i \in Late \/ j \in Late THEN None ELSE NoShards]]
-        /\ joined = Inst \ Late
+        /\ joined = Inst \ Late /\ rd = {}
         /\ snaps = {} /\ left = {} /\ leaveEv = {} /\ lastClaim = [i \in Inst |-> NoShards]
         /\ held = [i \in Inst |-> [sh \in Sh |-> FALSE]]
         /\ nclaims = 0 /\ dups = 0 /\ nsnaps = 0
@@ -83,6 +85,7 @@ Release(i, sh) ==
   /\ UNCHANGED <<clock, msgs, remote, snaps, left, leaveEv, lastClaim, nclaims, dups, nsnaps>>
 
 Deliver(m, keep) ==
+  /\ (SplitDeliver => m.type # "register")
   /\ m \in msgs /\ (keep => dups < MaxDup)
   /\ msgs' = (IF keep THEN msgs ELSE msgs \ {m}) /\ dups' = (IF keep THEN dups + 1 ELSE dups)
   /\ LET j == m.to
@@ -124,17 +127,36 @@ Join(a) ==
   /\ nsnaps' = nsnaps + 1
   /\ UNCHANGED <<clock, local, pend, msgs, left, leaveEv, lastClaim, held, nclaims, dups>>
 
-J(A) == A /\ UNCHANGED joined
+\* the two halves of NotifyMsg for a register announcement: the eviction acts on the snapshot - it removes the local entry only
+\* if that entry is still the one that was read (UnregisterShard compares the registration timestamp)
+DRead(m, keep) ==
+  /\ SplitDeliver /\ m \in msgs /\ m.type = "register" /\ rd = {} /\ (keep => dups < MaxDup)
+  /\ msgs' = (IF keep THEN msgs ELSE msgs \ {m}) /\ dups' = (IF keep THEN dups + 1 ELSE dups)
+  /\ rd' = {[to |-> m.to, from |-> m.from, sh |-> m.sh, ts |-> m.ts, snap |-> local[m.to][m.sh]]}
+  /\ UNCHANGED <<clock, local, pend, remote, snaps, left, leaveEv, lastClaim, held, nclaims, nsnaps, joined>>
+DEvict(r) ==
+  /\ r \in rd /\ rd' = {}
+  /\ LET j == r.to
+         \* GuardedEvict (the code): UnregisterShard(shard, snapshot.Created) removes only the entry that was read. FALSE: a variant
+         \* that removes whatever is registered now (g_split2_unguarded.cfg violates SingleNewestOwner)
+         evict == j \notin left /\ r.snap # 0 /\ r.snap < r.ts /\ (IF GuardedEvict THEN local[j][r.sh] = r.snap ELSE local[j][r.sh] # 0)
+     IN /\ local' = (IF evict THEN [local EXCEPT ![j][r.sh] = 0] ELSE local)
+        /\ pend' = (IF evict THEN [pend EXCEPT ![j] = @ \cup {[type |-> "unregister", sh |-> r.sh, cts |-> 0]}] ELSE pend)
+  /\ UNCHANGED <<clock, msgs, remote, snaps, left, leaveEv, lastClaim, held, nclaims, dups, nsnaps, joined>>
+
+J(A) == A /\ UNCHANGED <<joined, rd>>
 Next == \/ J(\/ \E i \in Inst, sh \in Sh : Claim(i, sh) \/ Release(i, sh)
              \/ \E i \in Inst : (\E a \in pend[i] : Announce(i, a)) \/ Leave(i) \/ \E j \in Inst : Snapshot(i, j)
              \/ \E m \in msgs : Deliver(m, TRUE) \/ Deliver(m, FALSE)
              \/ \E s \in snaps : Merge(s)
              \/ \E e \in leaveEv : NotifyLeave(e))
-        \/ \E a \in Inst : Join(a)
+        \/ (\E a \in Inst : Join(a)) /\ UNCHANGED rd
+        \/ \E m \in msgs : DRead(m, TRUE) \/ DRead(m, FALSE)
+        \/ \E r \in rd : DEvict(r)
 Spec == Init /\ [][Next]_vars
 
 (* ---------------- C09 ----------------------------------------------------- *)
-Quiescent == msgs = {} /\ snaps = {} /\ leaveEv = {} /\ \A i \in Inst : pend[i] = {}
+Quiescent == msgs = {} /\ snaps = {} /\ leaveEv = {} /\ rd = {} /\ \A i \in Inst : pend[i] = {}
 Claimants(sh) == {i \in Inst : lastClaim[i][sh] > 0}          \* everybody who ever claimed it, also those who left
 Newest(sh) == CHOOSE i \in Claimants(sh) : \A j \in Claimants(sh) : lastClaim[j][sh] <= lastClaim[i][sh]
 Owners(sh) == {i \in Inst \ left : local[i][sh] # 0}
